@@ -27,6 +27,9 @@ CHECKS = {
  "C11": ("bounded symbolic execution of all entry points on one symbolic document, compared with each other and with the union/intersection fold of the operands' own results",
          "findall/finditer/match/query at environment, compiled and module level agree; compound queries with 2-4 operands equal the left-to-right fold, with symbolic leaf values deciding which intersections are empty; JSON text and file forms agree over pooled leaves.",
          "text/file forms are enumeration over pooled leaves (json is a C boundary)"),
+ "C04": ("bounded symbolic execution of JSONPointer parse/resolve/exists on symbolic member names and tokens vs an RFC 6901 reference",
+         "Every node reachable: a symbolic member name (escape decoding off) or a Sigma name (decoding on and off) placed in four document shapes resolves through its RFC 6901 spelling to that very node; a last token applied to an array, primitive or object resolves exactly when RFC 6901 section 4 can evaluate it, otherwise raises a resolution error / returns the default, and exists() agrees.",
+         "Obj: objects with a symbolic member name are pure-Python Mappings (a dict would realise the key); Sigma enumeration where the unicode-escape codec (C) sits in the way"),
 }
 NA = {
  "C18": "process-level I/O (argparse FileType, stdin/stdout, exit status, stderr text): CrossHair's audit wall blocks file access, file contents pass through C json, and what remains is a finite option table whose exploration would be enumeration of concrete runs - no role for a solver",
